@@ -150,6 +150,42 @@ def run_exmod(emit, dry_run, recursive, no_word_wrap, blacklist_sub, sql_sub, pr
     return ""
 
 
+def dry_after_real(emit, rec1, rec2, sql_sub):
+    """history: a REAL run populates the output directory, then a DRY run over it must not touch anything"""
+    import contextlib
+    import io
+
+    import cdd.compound.exmod as ex
+    import cdd.compound.exmod_utils as exu
+
+    _COUNTER[0] += 1
+    out = os.path.join(_ROOT, "out_%d" % _COUNTER[0])
+    stream = io.StringIO()
+    saved_stream = exu.EXMOD_OUT_STREAM
+    exu.EXMOD_OUT_STREAM = stream
+    kw = dict(emit_name=emit, module=PKG, blacklist=[], whitelist=[], output_directory=out, target_module_name="gold", mock_imports=True,
+              emit_sqlalchemy_submodule=sql_sub, extra_modules=None, no_word_wrap=None)
+    try:
+        with contextlib.redirect_stdout(io.StringIO()), contextlib.redirect_stderr(io.StringIO()):
+            with FsMonitor():  # (black stub active under the engine)
+                try:
+                    ex.exmod(recursive=rec1, dry_run=False, **kw)
+                except Exception:
+                    pass
+            with FsMonitor() as mon:
+                try:
+                    ex.exmod(recursive=rec2, dry_run=True, **kw)
+                except Exception:
+                    pass
+        log = list(mon.log)
+    finally:
+        exu.EXMOD_OUT_STREAM = saved_stream
+        shutil.rmtree(out, ignore_errors=True)
+    if log:
+        return "dry run over a populated output directory reached a file-system mutator: %s %s" % (log[0][0], log[0][1].replace(os.path.realpath(out), "<out>"))
+    return ""
+
+
 def _mk(emit):
     def body(dry_run, recursive, no_word_wrap, blacklist_sub, sql_sub, preexisting):
         return run_exmod(emit, dry_run, recursive, no_word_wrap, blacklist_sub, sql_sub, preexisting)
@@ -171,3 +207,10 @@ for _e in EMITS:
        tier="quick" if _e in ("class", "sqlalchemy") else "thorough", T=1500, tpath=600, funcs=FUNCS,
        bound="REAL recursive run, emit kind %s: blacklist of the sub-package, %soutput directory pre-existing or not (solver booleans); paths under the output directory only, "
              "blacklisted sub-package produces no output" % (_e, "emit_sqlalchemy_submodule, " if _sql else ""))(_mk(_e))
+
+
+for _e in ("class", "sqlalchemy_table", "sqlalchemy", "sqlalchemy_hybrid", "function"):
+    ob("C20", "P2.dry_after_real.%s" % _e, {"rec1": BOOL, "rec2": BOOL, "sql_sub": BOOL if _e.startswith("sqlalchemy") else R(0, 0)},
+       tier="quick" if _e in ("class", "sqlalchemy_table") else "thorough", T=1500, tpath=600, funcs=FUNCS,
+       bound="history of two runs on the same output directory: a real run (recursive on/off) then a dry run (recursive on/off), emit kind %s%s: the dry run reaches no mutator"
+             % (_e, ", emit_sqlalchemy_submodule on/off" if _e.startswith("sqlalchemy") else ""))((lambda e: (lambda rec1, rec2, sql_sub: dry_after_real(e, rec1, rec2, sql_sub)))(_e))
